@@ -123,6 +123,10 @@ func executeCompaction(db *DB) (compactionMetadata *proto.CompactionMetadata, er
 
 	iterators = verifWrapCompactionInputs(iterators)
 	reduceFunc := sstables.ScanReduceLatestWinsSkipTombstones
+	if !db.sstableManager.isOldestTable(paths[0]) {
+		// tombstones may only be dropped when no older table is left that they shadow
+		reduceFunc = scanReduceLatestWinsKeepTombstones
+	}
 	err = sstables.NewSSTableMerger(db.cmp).MergeCompact(iterators, writer, reduceFunc)
 	if err != nil {
 		return nil, err
@@ -158,6 +162,16 @@ func executeCompaction(db *DB) (compactionMetadata *proto.CompactionMetadata, er
 	log.Printf("done compacting %d sstables in %v. Path: [%s]\n", len(paths), time.Since(start), writeFolder)
 
 	return compactionMetadata, nil
+}
+
+// scanReduceLatestWinsKeepTombstones is ScanReduceLatestWins, but a tombstone survives the merge as an empty value
+// (a nil value would be skipped by the merger). Reads and later compactions treat empty values as deleted.
+func scanReduceLatestWinsKeepTombstones(key []byte, values [][]byte, context []int) ([]byte, []byte) {
+	key, val := sstables.ScanReduceLatestWins(key, values, context)
+	if val == nil {
+		val = []byte{}
+	}
+	return key, val
 }
 
 func saveCompactionMetadata(writeFolder string, compactionMetadata *proto.CompactionMetadata) (err error) {
